@@ -16,9 +16,9 @@ AREAS = {
                 "explain": "(fun c => match c with DEnc e _ => kobs_of (enc_one e) | DDec e _ => kobs_of (dec_one e) | DEncList l _ => match hack_encode l with Ok (e :: _) => KOk e | _ => KErr 4 end end)",
                 "default_case": "(DEncList [] None)"},
     "instance": {"branches": [2, 4, 5, 6, 12, 13, 14, 15, 16, 31, 33, 41, 42], "shard": 60,
-                 "explain": "imodel", "default_case": "(ISendCase (mkICfg true true false false false) (mkEnv [] 0) 0 0 IPanic)"},
+                 "explain": "imodel", "default_case": "(ISendCase (mkICfg true true false false false []) (mkEnv [] 0) 0 0 IPanic)"},
     "syncloop": {"branches": [2, 3, 7, 102, 103, 107], "shard": 12,
-                 "explain": "lexplain", "default_case": "(mkLC (mkICfg true true false false false) (mkEnv [] 0) [] 0 [] (mkEnv [] 0) 0 0)"},
+                 "explain": "lexplain", "default_case": "(mkLC (mkICfg true true false false false []) (mkEnv [] 0) [] 0 [] (mkEnv [] 0) 0 0)"},
     "fleet": {"branches": [3], "shard": 40,
               "explain": "fexplain", "default_case": "(mkFC [] [])"},
     "crash": {"branches": [3], "shard": 40,
@@ -30,7 +30,7 @@ PROPS = {
             "assumptions": ["timestamps, transaction ids < 2^64 and flag bytes < 256 (Go types uint64/uint8)",
                             "values are byte strings (every element < 256)"],
             "trusted_base": ["modelled: lmdbenv/header/header.go PutBasic/Parse/Skip/getNumExtra/Flags, syncer/iterators.go Merge/Clean/addHeader; Header.Bytes/doBytes (not used by the sync path) is not modelled"]},
-    "C02": {"seed": 2, "areas": [("merge", 900)], "thorough_mult": 10,
+    "C02": {"seed": 2, "areas": [("merge", 900), ("strategy", 300), ("instance", 200)], "thorough_mult": 10,
             "assumptions": ["timestamps and transaction ids < 2^64",
                             "order-independence from an ABSENT key is claimed for cutoff 0 (sweeper disabled); with a cutoff the exact rule is C02_cutoff_fold and C02_cutoff_order_refuted shows the limit (required by C04)"],
             "trusted_base": ["modelled: syncer/iterators.go NewNativeIterator gates, Merge, Clean, addHeader, PlainIterator; snapshot/flags.go MaskedFlags; header.Parse"]},
@@ -39,7 +39,7 @@ PROPS = {
                             "integer-key DBIs hold keys of one width (2, 4 or 8 bytes), as LMDB requires",
                             "the legacy strategies Put, Append, IterPut, Pick are out of scope (nothing calls them)"],
             "trusted_base": [LMDB_TRUST, "modelled: lmdbenv/strategy update.go, iterupdate.go, utils.go (iterBoth, setNewVal, cmpIntegerLittleEndian, bytesToInt), emptyput.go + doPut"]},
-    "C11": {"seed": 11, "areas": [("shadow", 500), ("strategy", 300), ("syncloop", 60)], "thorough_mult": 8,
+    "C11": {"seed": 11, "areas": [("shadow", 500), ("strategy", 300), ("syncloop", 60), ("instance", 200)], "thorough_mult": 8,
             "assumptions": ["steady state: stored shadow timestamps are below the time of detection (monotone clock, the documented operating assumption)",
                             "one DBI at a time; composition over DBIs and with the merge step is in the Instance model (C01/C03)",
                             "known finding F6: live entries with an EMPTY application value are not projected (C11_empty_value_refuted)"],
@@ -56,7 +56,7 @@ PROPS = {
             "assumptions": ["'as of one single LMDB transaction' rests on LMDB snapshot isolation (trusted): the dump is a function of one environment value",
                             "values up to a few hundred bytes in the correspondence; megabyte values are not exercised"],
             "trusted_base": [LMDB_TRUST, "modelled: syncer/send.go SendOnce transaction body, readDBI, ReadDBINames order; names/metadata compared by the oracle, name format is C15"]},
-    "C10": {"seed": 10, "areas": [("instance", 300), ("syncloop", 96), ("shadow", 300)], "thorough_mult": 6,
+    "C10": {"seed": 10, "areas": [("instance", 300), ("syncloop", 96), ("shadow", 300), ("retention", 60)], "thorough_mult": 6,
             "assumptions": ["tomb sweeper disabled (a sweeper transaction is a local writer and triggers a snapshot by design, config.go:254-256)",
                             "fleet-level bound follows from the per-instance statements: after the last application write each instance uploads at most once more per load that found a local change"],
             "trusted_base": [LMDB_TRUST, "Instance/Ids.v abstracts the loop's id bookkeeping; it is evaluated next to the executable machine (Instance/SyncLoop.v), which is compared with the real syncLoop through the verif yield hooks"]},
@@ -65,7 +65,7 @@ PROPS = {
                             "shadow mode records CHANGES between two captures: writing a value back, or creating and deleting a key between two captures, leaves nothing to record",
                             "empty application values: known finding F6 (reported under C11)"],
             "trusted_base": [LMDB_TRUST, "Instance/Ids.v (abstract id bookkeeping, all interleavings) + Instance/SyncLoop.v (executable loop) compared with the real syncLoop via yield hooks"]},
-    "C09": {"seed": 9, "areas": [("syncloop", 144)], "thorough_mult": 6,
+    "C09": {"seed": 9, "areas": [("syncloop", 144), ("crash", 40), ("receiver", 120)], "thorough_mult": 6,
             "assumptions": ["known finding F8 (C09_refuted)", "Store failures below the retry budget (StorageRetryCount) are retried; exhausting it makes the loop return (the process restarts and uploads at start-up)"],
             "trusted_base": [LMDB_TRUST, "Instance/Ids.v + Instance/SyncLoop.v as for C03"]},
     "C01": {"seed": 1, "areas": [("fleet", 160), ("merge", 300), ("syncloop", 60), ("shadow", 200)], "thorough_mult": 6,
